@@ -172,13 +172,36 @@ Section ActFrame.
       right. simpl. exact Hne.
   Qed.
 
-  Lemma Q_remove w k : safe_key k -> Q w -> Q (agent_remove w k).
+  Lemma Q_remove_dyn w k :
+    (forall a, find_agent (w_born w) k = Some a -> a_model a <> j) -> Q w -> Q (obj_remove w k).
   Proof.
-    intros Hs [HI [Hg Hb]]. split; [apply agent_remove_inv; exact HI|]. split.
-    - unfold agent_remove. rewrite deregister_obj_frame; [exact Hg|].
-      intros a Hf. apply find_agent_Some in Hf. destruct Hf as [Hin Hk].
-      destruct (Hb a Hin) as [H0|H0]; [exact (Hs a H0 Hk)|exact H0].
-    - unfold agent_remove. rewrite deregister_obj_born. exact Hb.
+    intros Hd [HI [Hg Hb]]. split; [apply obj_remove_inv; exact HI|]. split.
+    - rewrite obj_remove_frame; [exact Hg|exact Hd].
+    - destruct (obj_remove_born w k) as [ext [E Hext]]. rewrite E. intros a' Ha'.
+      apply in_app_or in Ha'. destruct Ha' as [Ha'|Ha']; [exact (Hb a' Ha')|].
+      right. destruct (find_agent (w_born w) k) as [a|] eqn:Ef.
+      + rewrite (Hext a' a Ha' eq_refl). exact (Hd a eq_refl).
+      + exfalso. unfold obj_remove in E. rewrite Ef in E.
+        assert (ext = []) as -> by (apply (app_inv_head (w_born w)); rewrite <- E; symmetry; apply app_nil_r).
+        exact Ha'.
+  Qed.
+
+  Lemma Q_remove w k : safe_key k -> Q w -> Q (obj_remove w k).
+  Proof.
+    intros Hs HQ. apply Q_remove_dyn; [|exact HQ]. destruct HQ as [HI [Hg Hb]].
+    intros a Hf. apply find_agent_Some in Hf. destruct Hf as [Hin Hk].
+    destruct (Hb a Hin) as [H0|H0]; [exact (Hs a H0 Hk)|exact H0].
+  Qed.
+
+  Lemma Q_fold_remove l : forall w,
+    (forall k, In k l -> exists a, find_agent (w_born w) k = Some a /\ a_model a <> j) ->
+    Q w -> Q (fold_left obj_remove l w).
+  Proof.
+    induction l as [|k t IH]; intros w H HQ; simpl; [exact HQ|].
+    apply IH.
+    - intros k' Hin. destruct (H k' (or_intror Hin)) as [a [H1 H2]]. exists a. split; [|exact H2].
+      apply obj_remove_find. exact H1.
+    - apply Q_remove_dyn; [|exact HQ]. intros a Ha. destruct (H k (or_introl eq_refl)) as [a0 [H1 H2]]. congruence.
   Qed.
 
   Lemma Q_create_loop m c f n is : m <> j -> forall w, Q w -> Q (fst (create_loop w m c f n is)).
@@ -192,9 +215,13 @@ Section ActFrame.
 
   Lemma Q_remove_all w m : m <> j -> Q w -> Q (remove_all w m).
   Proof.
-    intros Hne [HI [Hg Hb]]. split; [apply remove_all_inv; exact HI|]. split.
-    - rewrite (remove_all_frame st); [exact Hg|exact HI|congruence].
-    - unfold remove_all. destruct (getm (w_models w) m); [|exact Hb]. rewrite fold_remove_born. exact Hb.
+    intros Hne HQ. unfold remove_all. destruct (getm (w_models w) m) as [ms|] eqn:Eg; [|exact HQ].
+    apply Q_fold_remove; [|exact HQ]. destruct HQ as [HI _]. intros k Hin.
+    assert (exists a, find_agent (w_born w) k = Some a) as [a Hf].
+    { pose proof Hin as Hin'. rewrite (mi_hard _ _ _ _ _ (inv_models st w HI m ms Eg)) in Hin'.
+      apply live_spec in Hin'. destruct Hin' as [a0 [H1 [H2 _]]].
+      destruct (find_agent_In _ _ H1) as [a' Hf]. rewrite H2 in Hf. eauto. }
+    exists a. split; [exact Hf|]. rewrite (hard_agents_of_model st w m ms k a HI Eg Hin Hf). exact Hne.
   Qed.
 
   Lemma Q_exec w self a : act_safe self a -> Q w -> Q (exec_act w self a).
@@ -231,3 +258,251 @@ Proof.
     apply (Q_loop st w j s p (fun k _ => Hs k) w HQ).
   - cbn [fst]. apply (Q_loop st w j s snap (fun k _ => Hs k) w HQ).
 Qed.
+
+(* ---------- remove_all_agents restores full exactness, whatever was done to model.agents before ---------- *)
+Lemma agent_remove_removed_mono w k x : In x (w_removed w) -> In x (w_removed (agent_remove w k)).
+Proof.
+  intros H. unfold agent_remove, deregister_obj. destruct (find_agent (w_born w) k) as [a|]; [|exact H].
+  destruct (getm (w_models w) (a_model a)) as [ms|]; [|exact H].
+  destruct (deregister ms k (a_cls a)). cbn [fst w_removed]. right. exact H.
+Qed.
+
+Lemma agent_remove_adds w k a :
+  find_agent (w_born w) k = Some a -> 0 <= a_model a < zlen (w_models w) -> In k (w_removed (agent_remove w k)).
+Proof.
+  intros Hf Hr. unfold agent_remove, deregister_obj. rewrite Hf.
+  destruct (getm_in_range _ _ Hr) as [ms Hg]. rewrite Hg.
+  destruct (deregister ms k (a_cls a)). cbn [fst w_removed]. left. reflexivity.
+Qed.
+
+Lemma agent_remove_zlen w k : zlen (w_models (agent_remove w k)) = zlen (w_models w).
+Proof.
+  unfold agent_remove, deregister_obj. destruct (find_agent (w_born w) k) as [a|]; [|reflexivity].
+  destruct (getm (w_models w) (a_model a)) as [ms|]; [|reflexivity].
+  destruct (deregister ms k (a_cls a)). cbn [fst w_models]. apply setm_length.
+Qed.
+
+Lemma fold_remove_removed l : forall w,
+  (forall k, In k l -> exists a, find_agent (w_born w) k = Some a /\ 0 <= a_model a < zlen (w_models w)) ->
+  (forall x, In x (w_removed w) -> In x (w_removed (fold_left agent_remove l w))) /\
+  (forall k, In k l -> In k (w_removed (fold_left agent_remove l w))).
+Proof.
+  induction l as [|k t IH]; intros w H; simpl; [split; [auto|intros k []]|].
+  assert (forall k', In k' t -> exists a, find_agent (w_born (agent_remove w k)) k' = Some a /\
+                                          0 <= a_model a < zlen (w_models (agent_remove w k))) as H'.
+  { intros k' Hk'. destruct (H k' (or_intror Hk')) as [a [H1 H2]]. exists a.
+    unfold agent_remove at 1. rewrite deregister_obj_born, agent_remove_zlen. auto. }
+  destruct (IH (agent_remove w k) H') as [IH1 IH2]. split.
+  - intros x Hx. apply IH1. apply agent_remove_removed_mono. exact Hx.
+  - intros k' [<-|Hk']; [|apply IH2; exact Hk'].
+    apply IH1. destruct (H k (or_introl eq_refl)) as [a [H1 H2]]. eapply agent_remove_adds; eassumption.
+Qed.
+
+Lemma perm_nil_eq (l : list Z) : Permutation l [] -> l = [].
+Proof. intros H. apply Permutation_sym in H. apply Permutation_nil in H. exact H. Qed.
+
+(* without overriding remove() methods among the agents concerned, agent.remove() is Agent.remove *)
+Lemma fold_obj_plain l : forall w,
+  (forall k a, In k l -> find_agent (w_born w) k = Some a -> ov_of (a_cls a) = None) ->
+  fold_left obj_remove l w = fold_left agent_remove l w.
+Proof.
+  induction l as [|k t IH]; intros w H; simpl; [reflexivity|].
+  assert (obj_remove w k = agent_remove w k) as E.
+  { unfold obj_remove. destruct (find_agent (w_born w) k) as [a|] eqn:Ef.
+    - rewrite (H k a (or_introl eq_refl) Ef). reflexivity.
+    - unfold agent_remove, deregister_obj. rewrite Ef. reflexivity. }
+  rewrite E. apply IH. intros k' a Hin Hf. unfold agent_remove in Hf. rewrite deregister_obj_born in Hf.
+  exact (H k' a (or_intror Hin) Hf).
+Qed.
+
+Lemma fold_remove_born l : forall w, w_born (fold_left agent_remove l w) = w_born w.
+Proof.
+  induction l as [|k t IH]; intros w; simpl; [reflexivity|].
+  rewrite IH. apply deregister_obj_born.
+Qed.
+
+(* In ANY state reachable by ANY history - model.agents possibly thinned out through discard/remove/select -
+   remove_all_agents leaves model m with every view empty, nobody live, and the strict invariant back in force
+   (provided none of m's registered agents is of a class that overrides remove(): such an override may keep the
+   agent registered or construct new agents while the loop runs, see remove_all_with_override_refuted) *)
+Theorem thm_remove_all_restores st w m ms :
+  Inv st w -> getm (w_models w) m = Some ms ->
+  (forall k a, In k (m_hard ms) -> find_agent (w_born w) k = Some a -> ov_of (a_cls a) = None) ->
+  let w' := remove_all w m in
+  exists ms', getm (w_models w') m = Some ms' /\
+    live m (w_born w') (w_removed w') = [] /\
+    m_hard ms' = [] /\ m_all ms' = [] /\ (forall c l, bt_get c (m_bt ms') = Some l -> l = []) /\
+    minv true (w_born w') (w_removed w') m ms'.
+Proof.
+  intros HI Hg Hplain w'.
+  pose proof (remove_all_inv st w m HI) as HI'. fold w' in HI'.
+  assert (w' = fold_left agent_remove (m_hard ms) w) as Ew
+    by (unfold w', remove_all; rewrite Hg; apply fold_obj_plain; exact Hplain).
+  assert (forall k, In k (m_hard ms) -> exists a, find_agent (w_born w) k = Some a /\ 0 <= a_model a < zlen (w_models w)) as Hk.
+  { intros k Hin. rewrite (mi_hard _ _ _ _ _ (inv_models st w HI m ms Hg)) in Hin.
+    apply live_spec in Hin. destruct Hin as [a [H1 [H2 _]]].
+    destruct (find_agent_In _ _ H1) as [a' Hf]. rewrite H2 in Hf. exists a'. split; [exact Hf|].
+    apply find_agent_Some in Hf. exact (inv_amodel st w HI a' (proj1 Hf)). }
+  destruct (fold_remove_removed (m_hard ms) w Hk) as [Hmono Hall]. rewrite <- Ew in Hmono, Hall.
+  assert (w_born w' = w_born w) as Eb by (rewrite Ew; apply fold_remove_born).
+  assert (live m (w_born w') (w_removed w') = []) as Hlive.
+  { destruct (live m (w_born w') (w_removed w')) as [|x t] eqn:E; [reflexivity|]. exfalso.
+    assert (In x (live m (w_born w') (w_removed w'))) as Hx by (rewrite E; left; reflexivity).
+    apply live_spec in Hx. destruct Hx as [a [H1 [H2 [H3 H4]]]]. apply H4. apply Hall.
+    rewrite (mi_hard _ _ _ _ _ (inv_models st w HI m ms Hg)). apply live_spec. exists a.
+    rewrite Eb in H1. split; [exact H1|]. split; [exact H2|]. split; [exact H3|].
+    intros Hr. apply H4. apply Hmono. exact Hr. }
+  assert (zlen (w_models w') = zlen (w_models w)) as Hlen.
+  { rewrite Ew. clear. generalize w. induction (m_hard ms) as [|k t IH]; intros w0; simpl; [reflexivity|].
+    rewrite IH. apply agent_remove_zlen. }
+  destruct (getm_in_range (w_models w') m) as [ms' Hg']; [rewrite Hlen; eapply getm_range; exact Hg|].
+  exists ms'. split; [exact Hg'|]. split; [exact Hlive|].
+  pose proof (inv_models st w' HI' m ms' Hg') as [Hh Ha Hae Hb Hbn Hi Hnx].
+  assert (m_hard ms' = []) as Hh0 by (rewrite Hh; exact Hlive).
+  assert (m_all ms' = []) as Ha0.
+  { rewrite Hh0 in Ha. destruct st; [apply perm_nil_eq; exact Ha|]. destruct Ha as [_ Hinc].
+    destruct (m_all ms') as [|x t]; [reflexivity|]. exfalso. exact (Hinc x (or_introl eq_refl)). }
+  assert (forall c, live_cls m c (w_born w') (w_removed w') = []) as Hcls.
+  { intros c. destruct (live_cls m c (w_born w') (w_removed w')) as [|x t] eqn:E; [reflexivity|]. exfalso.
+    assert (In x (live m (w_born w') (w_removed w'))) as Hx by (apply (live_cls_sub m c); rewrite E; left; reflexivity).
+    rewrite Hlive in Hx. exact Hx. }
+  split; [exact Hh0|]. split; [exact Ha0|]. split.
+  - intros c l Hc. specialize (Hb c). rewrite Hc, Hcls in Hb. apply perm_nil_eq. apply Hb.
+  - constructor; try assumption.
+    + rewrite Ha0, Hh0. constructor.
+    + intros _ _. rewrite Ha0, Hh0. reflexivity.
+Qed.
+
+(* ---------- agent_types, exactly: the classes ever instantiated for the model, in order of first creation ---------- *)
+Definition zdedup : list Z -> list Z := dedup_first Z.eqb.
+Definition classes_ever (m : Z) (born : list arec) : list Z := zdedup (map a_cls (born_of m born)).
+
+Lemma dedup_acc_snoc l c : forall seen,
+  dedup_acc Z.eqb seen (l ++ [c]) = dedup_acc Z.eqb seen l ++ (if zmem c seen || zmem c l then [] else [c]).
+Proof.
+  unfold zmem. induction l as [|x t IH]; intros seen; cbn [app dedup_acc].
+  - change (memb Z.eqb c []) with false. rewrite orb_false_r. destruct (memb Z.eqb c seen); reflexivity.
+  - change (memb Z.eqb c (x :: t)) with ((c =? x) || memb Z.eqb c t).
+    destruct (memb Z.eqb x seen) eqn:Ex.
+    + rewrite IH. f_equal. destruct (c =? x) eqn:E; [|reflexivity].
+      apply Z.eqb_eq in E. subst. rewrite Ex. reflexivity.
+    + rewrite IH. cbn [app]. f_equal. f_equal.
+      change (memb Z.eqb c (x :: seen)) with ((c =? x) || memb Z.eqb c seen).
+      destruct (c =? x), (memb Z.eqb c seen), (memb Z.eqb c t); reflexivity.
+Qed.
+
+Lemma zdedup_snoc l c : zdedup (l ++ [c]) = zdedup l ++ (if zmem c l then [] else [c]).
+Proof. unfold zdedup, dedup_first. rewrite dedup_acc_snoc. reflexivity. Qed.
+
+Lemma zdedup_In l x : In x (zdedup l) <-> In x l.
+Proof. apply (dedup_first_In Z.eqb zeqb_spec). Qed.
+
+Definition KInv (w : world) : Prop :=
+  forall m ms, getm (w_models w) m = Some ms -> map fst (m_bt ms) = classes_ever m (w_born w).
+
+Lemma deregister_keys ms k c : map fst (m_bt (fst (deregister ms k c))) = map fst (m_bt ms).
+Proof.
+  unfold deregister. destruct (zmem k (m_hard ms)); [|reflexivity]. cbn [m_next m_hard m_all m_bt m_reord].
+  destruct (bt_get c (m_bt ms)) as [l|]; [|reflexivity].
+  destruct (zmem k l); [|reflexivity]. cbn [m_next m_hard m_all m_bt m_reord].
+  destruct (zmem k (m_all ms)); cbn [fst m_bt]; apply bt_set_keys.
+Qed.
+
+Lemma KInv_init w m c p : KInv w -> KInv (fst (agent_init w m c p)).
+Proof.
+  intros HK. unfold agent_init. destruct (getm (w_models w) m) as [ms|] eqn:Eg; [|exact HK].
+  cbn [fst]. intros j msj Hg. cbn [w_models w_born] in *. unfold classes_ever, born_of. rewrite filter_app. simpl.
+  destruct (Z.eq_dec j m) as [->|Hne].
+  - rewrite (getm_setm_same _ _ _ _ Eg) in Hg. inversion Hg. subst msj. clear Hg.
+    unfold of_model at 2. cbn [a_model]. rewrite Z.eqb_refl. rewrite map_app. cbn [map a_cls].
+    rewrite zdedup_snoc. fold (born_of m (w_born w)). pose proof (HK m ms Eg) as Hk. unfold classes_ever in Hk.
+    unfold register. cbn [m_bt]. destruct (bt_get c (m_bt ms)) as [l|] eqn:Ec.
+    + rewrite bt_set_keys, Hk.
+      assert (zmem c (map a_cls (born_of m (w_born w))) = true) as ->.
+      { apply zmem_In. apply zdedup_In. rewrite <- Hk. apply bt_get_In in Ec. apply (in_map fst) in Ec. exact Ec. }
+      symmetry. apply app_nil_r.
+    + rewrite map_app, Hk. cbn [map fst].
+      assert (zmem c (map a_cls (born_of m (w_born w))) = false) as ->; [|reflexivity].
+      apply zmem_false. intros H. apply zdedup_In in H. rewrite <- Hk in H. exact (bt_get_None_notin _ _ Ec H).
+  - rewrite (getm_setm_other _ _ _ _ _ Eg Hne) in Hg.
+    assert (of_model j {| a_key := w_nkey w; a_model := m; a_uid := m_next ms; a_cls := c; a_pay := p |} = false) as ->.
+    { unfold of_model. cbn [a_model]. apply Z.eqb_neq. congruence. }
+    rewrite app_nil_r. exact (HK j msj Hg).
+Qed.
+
+Lemma KInv_dereg w k : KInv w -> KInv (fst (deregister_obj w k)).
+Proof.
+  intros HK. unfold deregister_obj. destruct (find_agent (w_born w) k) as [a|]; [|exact HK].
+  destruct (getm (w_models w) (a_model a)) as [ms|] eqn:Eg; [|exact HK].
+  destruct (deregister ms k (a_cls a)) as [ms' ok] eqn:Ed. cbn [fst].
+  intros j msj Hg. cbn [w_models w_born] in *. destruct (Z.eq_dec j (a_model a)) as [->|Hne].
+  - rewrite (getm_setm_same _ _ _ _ Eg) in Hg. inversion Hg. subst msj.
+    replace ms' with (fst (deregister ms k (a_cls a))) by (rewrite Ed; reflexivity).
+    rewrite deregister_keys. exact (HK _ ms Eg).
+  - rewrite (getm_setm_other _ _ _ _ _ Eg Hne) in Hg. exact (HK j msj Hg).
+Qed.
+
+Lemma KInv_set w m ms ms' :
+  KInv w -> getm (w_models w) m = Some ms -> map fst (m_bt ms') = map fst (m_bt ms) ->
+  KInv (set_models w (setm (w_models w) m ms')).
+Proof.
+  intros HK Eg Hk j msj Hg. cbn [set_models w_models w_born] in *. destruct (Z.eq_dec j m) as [->|Hne].
+  - rewrite (getm_setm_same _ _ _ _ Eg) in Hg. inversion Hg. subst. rewrite Hk. exact (HK m ms Eg).
+  - rewrite (getm_setm_other _ _ _ _ _ Eg Hne) in Hg. exact (HK j msj Hg).
+Qed.
+
+Lemma IK_step w o : Inv false w /\ KInv w -> Inv false (fst (step w o)) /\ KInv (fst (step w o)).
+Proof.
+  intros [HI HK]. split; [apply step_inv; [left; reflexivity|exact HI]|].
+  unfold step. destruct (step_op w o) as [w' r] eqn:Es. cbn [fst].
+  assert (w' = fst (step_op w o)) as -> by (rewrite Es; reflexivity). clear Es r.
+  destruct (structural o) eqn:E.
+  - destruct o; simpl in E; try discriminate; simpl.
+    + intros j msj Hg. cbn [set_models w_models w_born] in *. apply getm_app_new in Hg.
+      destruct Hg as [Hg|[-> ->]]; [exact (HK j msj Hg)|].
+      unfold classes_ever. assert (born_of (zlen (w_models w)) (w_born w) = []) as ->; [|reflexivity].
+      unfold born_of.
+      clear HK. pose proof (inv_amodel false w HI) as Ham. induction (w_born w) as [|a t IH]; [reflexivity|]. simpl.
+      assert (of_model (zlen (w_models w)) a = false) as ->.
+      { unfold of_model. apply Z.eqb_neq. specialize (Ham a (or_introl eq_refl)). lia. }
+      apply IH. intros a' Ha'. apply Ham. right. exact Ha'.
+    + destruct (getm (w_models w) m) as [ms|] eqn:Eg; [|exact HK].
+      destruct (is_perm order (m_all ms)); [|exact HK]. cbn [fst]. eapply KInv_set; [exact HK|exact Eg|reflexivity].
+    + destruct (getm (w_models w) m) as [ms|] eqn:Eg; [|exact HK].
+      destruct (bt_get c (m_bt ms)); [|exact HK].
+      destruct (is_perm order l); [|exact HK]. cbn [fst]. eapply KInv_set; [exact HK|exact Eg|]. apply bt_set_keys.
+    + destruct (getm (w_models w) m) as [ms|] eqn:Eg; [|exact HK].
+      destruct (zmem k (m_all ms)); [|exact HK]. cbn [fst]. eapply KInv_set; [exact HK|exact Eg|reflexivity].
+    + destruct (getm (w_models w) m) as [ms|] eqn:Eg; [|exact HK].
+      destruct (is_subseq keep (m_all ms)); [|exact HK]. cbn [fst]. eapply KInv_set; [exact HK|exact Eg|reflexivity].
+  - apply (P_step_op KInv); [apply KInv_init|apply KInv_dereg|exact E|exact HK].
+Qed.
+
+(* agent_types / the keys of agents_by_type after ANY history: exactly the classes ever instantiated for the model,
+   in order of first creation - a class stays listed (with an empty set, by C02_by_type_exact) after its last
+   agent was removed *)
+Theorem thm_agent_types_exact n ops : forall m ms,
+  getm (w_models (final (init n) ops)) m = Some ms ->
+  map fst (m_bt ms) = classes_ever m (w_born (final (init n) ops)).
+Proof.
+  assert (Inv false (final (init n) ops) /\ KInv (final (init n) ops)) as [_ H]; [|exact H].
+  unfold final. generalize (init n) (conj (init_inv false n) (fun m ms (Hg : getm (w_models (init n)) m = Some ms) =>
+     ltac:(unfold init, getm in Hg; cbn [w_models] in Hg; destruct (m <? 0); [discriminate|];
+           apply nth_error_In in Hg; apply repeat_spec in Hg; subst; reflexivity) : map fst (m_bt ms) = classes_ever m (w_born (init n)))).
+  induction ops as [|o t IH]; intros w Hw; simpl; [exact Hw|]. apply IH. apply IK_step. exact Hw.
+Qed.
+
+(* ... so agent_types may name a class without any live agent *)
+Lemma agent_types_names_dead_class :
+  exists ops ms, let w := final (init 1) ops in
+    getm (w_models w) 0 = Some ms /\ map fst (m_bt ms) = [3; 1] /\ bt_get 3 (m_bt ms) = Some [] /\
+    live_cls 0 3 (w_born w) (w_removed w) = [] /\ live 0 (w_born w) (w_removed w) = [1].
+Proof. exists [Create 0 3 5; Create 0 1 6; Remove 0]. eexists. vm_compute. repeat split; reflexivity. Qed.
+
+(* with an overriding remove() the loop of remove_all_agents is not the end of the story: class 6 constructs a new
+   agent after super().remove(), class 7 never deregisters *)
+Lemma remove_all_with_override_refuted :
+  exists ops ms, let w := final (init 1) ops in
+    getm (w_models w) 0 = Some ms /\ m_hard ms = [1; 2] /\ m_all ms = [1; 2] /\
+    live 0 (w_born w) (w_removed w) = [1; 2] /\ map a_cls (w_born w) = [6; 7; 3].
+Proof. exists [Create 0 6 1; Create 0 7 2; RemoveAll 0]. eexists. vm_compute. repeat split; reflexivity. Qed.
